@@ -238,6 +238,67 @@ def _const_truth(e):
     return None
 
 
+
+_FLIP = {ast.Lt: ast.Gt, ast.Gt: ast.Lt, ast.LtE: ast.GtE, ast.GtE: ast.LtE, ast.Eq: ast.Eq, ast.NotEq: ast.NotEq}
+_NEG = {ast.Lt: ast.GtE, ast.GtE: ast.Lt, ast.Gt: ast.LtE, ast.LtE: ast.Gt, ast.Eq: ast.NotEq, ast.NotEq: ast.Eq,
+        ast.Is: ast.IsNot, ast.IsNot: ast.Is, ast.In: ast.NotIn, ast.NotIn: ast.In}
+_EQUIV_CACHE = {}
+
+
+def equiv_forms(text, value):
+    """All spellings of one atomic test outcome: `a == b` True is also `b == a` True, `a != b` False, `b != a` False;
+    `a < b` True is `b > a` True, `a >= b` False, `b <= a` False; `x is None` True is `x is not None` False; likewise in."""
+    key = (text, value)
+    if key in _EQUIV_CACHE:
+        return _EQUIV_CACHE[key]
+    out = [(text, value)]
+    try:
+        e = ast.parse(text, mode="eval").body
+    except SyntaxError:
+        e = None
+    if isinstance(e, ast.Compare) and len(e.ops) == 1:
+        op = type(e.ops[0])
+        a, b = e.left, e.comparators[0]
+
+        def mk(l, o, r):
+            return ast.unparse(ast.Compare(left=l, ops=[o()], comparators=[r]))
+        if op in _FLIP:
+            out.append((mk(b, _FLIP[op], a), value))
+        if op in _NEG:
+            out.append((mk(a, _NEG[op], b), not value))
+            if _NEG[op] in _FLIP:
+                out.append((mk(b, _FLIP[_NEG[op]], a), not value))
+    _EQUIV_CACHE[key] = out
+    return out
+
+
+def canon_fact(text, value):
+    """One canonical spelling per atomic test outcome: the lexicographically smallest equivalent form that is *true*
+    (a plain truthiness test `x` False stays (`x`, False))."""
+    forms = equiv_forms(text, value)
+    true_forms = sorted(t for t, v in forms if v is True)
+    if true_forms:
+        return (true_forms[0], True)
+    return (sorted(t for t, v in forms)[0], False)
+
+
+def canon_set(d):
+    """Set of canonical facts of a guards/facts dict (equivalent spellings collapse to one)."""
+    items = d.items() if isinstance(d, dict) else d
+    return {canon_fact(k, v) for k, v in items if isinstance(v, bool)}
+
+
+def expand_equiv(d):
+    """dict test-text -> outcome, closed under the equivalent spellings (never overriding an entry that is already there)."""
+    out = dict(d)
+    for k, v in list(d.items()):
+        if not isinstance(v, bool):
+            continue
+        for k2, v2 in equiv_forms(k, v):
+            out.setdefault(k2, v2)
+    return out
+
+
 class CFG:
     def __init__(self, fn, exc_all=False):
         self.fn = fn
@@ -688,10 +749,11 @@ class CFG:
             n = self.nodes[d]
             if n.kind == "branch" and n.tag not in ("iter", "exhausted"):
                 out[src(n.ast)] = n.value
-        return out
+        return expand_equiv(out)
 
     def facts_at(self, nid, ignore_exc=True):
-        return self.facts(ignore_exc).get(nid, frozenset())
+        raw = self.facts(ignore_exc).get(nid, frozenset())
+        return frozenset(expand_equiv(dict(raw)).items())
 
     # ---------------------------------------------------------------- paths
     def paths(self, start=None, ends=None, max_visits=1, limit=4000, ignore_exc=True):
